@@ -11,15 +11,19 @@ import fileio_proofs  # noqa: E402
 L = [dict(fn='uncrustify_end', id=0, vars=['pc'], assigns='pc, g_list_len, g_deleted',
           inv='g_list_len + g_deleted == __CPROVER_loop_entry(g_list_len) + __CPROVER_loop_entry(g_deleted) && g_list_len <= __CPROVER_loop_entry(g_list_len)',
           decreases='g_list_len')]
-PROOFS = [
-    Proof('uncrustify_end', impl='contracts/C11/end.impl.cpp', spec='contracts/C11/end.spec.c', enforce='uncrustify_end/uncrustify_end_contract',
+def end_proof():
+    return Proof('uncrustify_end', impl='contracts/C11/end.impl.cpp', spec='contracts/C11/end.spec.c', enforce='uncrustify_end/uncrustify_end_contract',
           loops=L, replace=['memset/memset_contract'], assumed=['memset_contract (libc)'], functions=['uncrustify.cpp:uncrustify_end'],
           expect=['uncrustify_end_contract.postcondition', 'loop_decreases'],
           mutants=[('reset_line_removed', r'cpd.unc_off     = false;\n', '', 'postcondition'),
                    ('le_counts_not_cleared', r'memset\(cpd.le_counts, 0, sizeof\(cpd.le_counts\)\);\n', '', 'postcondition'),
                    ('stops_after_one_chunk', r'while \(\(pc = Chunk::GetHead\(\)\)->IsNotNullChunk\(\)\)', 'if ((pc = Chunk::GetHead())->IsNotNullChunk())', 'postcondition'),
-                   ('touches_other_state', r'cpd.changes     = 0;', 'cpd.changes     = 0; cpd.frag_cols = 0;', 'assigns')]),
-] + [fileio_proofs.dsf_proof()]
+                   ('touches_other_state', r'cpd.changes     = 0;', 'cpd.changes     = 0; cpd.frag_cols = 0;', 'assigns')],
+          frame_is_property=True,
+          note='the assigns clause is itself a claim here: uncrustify_end() resets per-file state and touches no configuration / per-invocation state')
+
+
+PROOFS = [end_proof(), fileio_proofs.dsf_proof()]
 EXPLANATION = ('Kernel of C11: uncrustify_end() empties the chunk list (loop closed by invariant over a ghost list length, with termination), clears the capture buffer and '
                'resets unc_off, al_cnt, did_newline, pp_level, changes, in_preproc, le_counts[*], preproc_ncnl_count, ifdef_over_whole_file, warned_unable_string_replace_tab_chars, '
                'unc_stage; its frame (assigns clause) shows it touches nothing else. A static check recomputes, on every run, the set W of cp_data_t fields written anywhere '
